@@ -330,14 +330,18 @@ def main():
         first_h = {}
         for (mod, h, ctext, info), res in results:
             first_h.setdefault(mod.NAME, h.name)
+        rdir = os.path.join(core.OUT, 'replay'); os.makedirs(rdir, exist_ok=True)
+        todo = []
         for un, hn in sorted(first_h.items()):
             if not os.path.exists(os.path.join(VERIF, 'units', un, 'replay.cpp')):
                 continue
-            rdir = os.path.join(core.OUT, 'replay'); os.makedirs(rdir, exist_ok=True)
             spath = os.path.join(rdir, 'sweep-%s-%s.replay.txt' % (prop, un))
             with open(spath, 'w') as f:
                 f.write('# replay sweep written by /verif/bin/check (thorough tier): no counterexample, the replay program runs over its whole neighbourhood\nproperty=%s\nunit=%s\nharness=%s\n' % (prop, un, hn))
-            rep, out = do_replay(spath)
+            todo.append((un, hn, spath))
+        with ThreadPoolExecutor(min(12, a.j)) as ex:   # the replay programs are compiled (g++ with sanitizers) and run in parallel
+            outs = list(ex.map(lambda t: do_replay(t[2]), todo))
+        for (un, hn, spath), (rep, out) in zip(todo, outs):
             last = [l for l in out.strip().splitlines() if 'REPRODUCED' in l][-1:] or out.strip().splitlines()[-1:]
             with open(spath, 'a') as f:
                 f.write('# replay against the real code: %s\n' % ('REPRODUCED' if rep else 'not reproduced' if rep is False else 'not run'))
